@@ -397,9 +397,16 @@ ExpZone(ev) ==
   ELSE IF ev.cfg.hasAssumed THEN <<ev.cfg.azh, ev.cfg.azm>>
   ELSE IF ev.cfg.unknown THEN <<0, 0>>
   ELSE LocalZoneFn(EffMin(ev) \div 60)
+GValid(m, g) ==
+  /\ CASE DateRep(g.dform) = "cal"  -> ValidCal(m, ExpYear(g), ExpA(g), ExpB(g))
+        [] DateRep(g.dform) = "ord"  -> ValidOrd(m, ExpYear(g), ExpA(g))
+        [] OTHER -> ValidWeek(m, ExpYear(g), ExpA(g), ExpB(g))
+  /\ (g.tform = "none" \/ (ExpH(g) <= 23 /\ ExpM(g) <= 59 /\ ExpS(g) <= 59)
+                        \/ (ExpH(g) = 24 /\ ExpM(g) = 0 /\ ExpS(g) = 0 /\ \A i \in 1..Len(g.ds) : g.ds[i] = 0))
+  /\ (g.tform = "none" \/ g.zform = "none" \/ ValidZone(g.zh, g.zm))
 ParseTPClause(m, ev) ==
   LET g == ev.g  q == ev.q
-      accept == WellFormed(g) /\ (ev.cfg.basic => AllBasic(g))
+      accept == WellFormed(g) /\ (ev.cfg.basic => AllBasic(g)) /\ GValid(m, g)
       z == ExpZone(ev)
       gd == [g EXCEPT !.ds = IF Len(g.ds) = 0 THEN g.ds ELSE StripZeros(g.ds)]
   IN
@@ -419,6 +426,44 @@ ParseTPClause(m, ev) ==
   ELSE IF <<q.zh, q.zm>> # z THEN "offset"
   \* text reproduction: decimals of up to 6 digits up to trailing zeros
   ELSE IF Len(g.ds) <= 6 /\ ev.dumped # TPText(gd) THEN "dump-as-parsed-does-not-reproduce-input"
+  ELSE "ok"
+
+\* ---------------------------------------------------------------------- C08: writing out and reading back
+SameValue(p, q) == p.rep = q.rep /\ p.y = q.y /\ p.a = q.a /\ p.b = q.b /\ SameZone(p, q) /\ p.prec = q.prec
+                   /\ p.hh = q.hh /\ p.mi = q.mi /\ p.ss = q.ss /\ p.fu = q.fu
+StrTripClause(m, ev) ==
+  IF ~ev.ok THEN "raised-" \o ev.cls
+  ELSE IF ~ValidTP(m, ev.p) THEN "operand-invalid"
+  ELSE IF ~SameValue(ev.p, ev.q) THEN "parsed-value-differs"
+  ELSE IF ~ev.eq THEN "parsed-not-equal-to-original"
+  ELSE IF ev.text2 # ev.text THEN "str-not-a-fixpoint"
+  ELSE "ok"
+DumpTripClause(m, ev) ==
+  IF ~ev.ok THEN "raised-" \o ev.cls
+  ELSE IF ~ValidTP(m, ev.q) THEN "parsed-invalid"
+  ELSE IF ~Near3(Inst(m, ev.q), Inst(m, ev.p), IF ev.p.frac THEN 1 ELSE 0) THEN "custom-dump-parses-to-another-instant"
+  ELSE IF ~ev.p.frac /\ ~ev.eq THEN "custom-dump-not-equal"
+  ELSE "ok"
+
+\* ---------------------------------------------------------------------- C09: acceptance table and arbitrary text
+CtorValid(m, c) ==
+  /\ CASE c.rep = "cal" -> ValidCal(m, c.y, c.a, c.b) [] c.rep = "ord" -> ValidOrd(m, c.y, c.a) [] OTHER -> ValidWeek(m, c.y, c.a, c.b)
+  /\ c.hh \in 0..24 /\ c.mi \in 0..59 /\ c.ss \in 0..59 /\ (c.hh = 24 => c.mi = 0 /\ c.ss = 0)
+  /\ ValidZone(c.zh, c.zm)
+CtorClause(m, ev) ==
+  LET c == ev.c  q == ev.q IN
+  IF CtorValid(m, c) THEN
+       (IF ~ev.ok THEN "refused-valid-fields-" \o ev.cls
+        ELSE IF ~(q.rep = c.rep /\ q.y = c.y /\ q.a = c.a /\ (c.rep = "ord" \/ q.b = c.b) /\ q.hh = c.hh /\ q.mi = c.mi /\ q.ss = c.ss
+                  /\ q.zh = c.zh /\ q.zm = c.zm) THEN "constructed-value-differs"
+        ELSE "ok")
+  ELSE IF ev.ok THEN "accepted-impossible-fields"
+  ELSE IF ~ev.ve THEN "refused-with-non-ValueError-" \o ev.cls
+  ELSE "ok"
+FuzzClause(m, ev) ==
+  IF ev.outcome = "timeout" THEN "hang"
+  ELSE IF ev.outcome = "other" THEN "non-ValueError-" \o ev.cls
+  ELSE IF ev.outcome = "obj" /\ ev.isq /\ ~ValidTP(m, ev.q) THEN "returned-invalid-time-point"
   ELSE "ok"
 
 \* ---------------------------------------------------------------------- the step relation
@@ -453,6 +498,10 @@ Clause(ev) ==
     [] ev.op = "SinceEpoch" -> SinceEpochClause(mode, ev)
     [] ev.op = "TruncAdd" -> TruncAddClause(mode, ev)
     [] ev.op = "ParseTP"  -> ParseTPClause(mode, ev)
+    [] ev.op = "StrTrip"  -> StrTripClause(mode, ev)
+    [] ev.op = "DumpTrip" -> DumpTripClause(mode, ev)
+    [] ev.op = "Ctor"     -> CtorClause(mode, ev)
+    [] ev.op = "Fuzz"     -> FuzzClause(mode, ev)
     [] ev.op = "Raised"   -> "raised-" \o ev.cls
     [] OTHER -> "unknown-event-kind"
 
